@@ -553,7 +553,36 @@ def mtu_agreement_rule(ctx):
     c10.mtu_agreement(ctx, rule='C12.mtu-agreement')
 
 
+def sdu_boundary(ctx, rule='C12.sdu-boundary'):
+    """On an enhanced bearer one ATT PDU is one SDU.  The channel assembles an SDU from its output queue: once a queued
+    packet has been taken completely, the SDU is closed (nothing of the next packet is appended)."""
+    R, p = ctx.r, ctx.p
+    po = p.find('bumble.l2cap.LeCreditBasedChannel.process_output')
+    if po is None:
+        R.bad(rule, 'bumble.l2cap.LeCreditBasedChannel.process_output', 'anchor missing')
+        return
+    inner = [n for n in walk_local(po) if isinstance(n, (ast.While, ast.For)) and any(isinstance(x, ast.Call) and dotted(x.func) in ('self.out_queue.popleft', 'self.out_queue.pop') for x in ast.walk(n)) and any(isinstance(x, ast.AugAssign) and dotted(x.target) == 'payload' for x in ast.walk(n))]
+    if not inner:
+        # no assembling loop: one packet per SDU by construction, as long as the payload is built from the queue head only
+        heads = [n for n in walk_local(po) if isinstance(n, ast.Assign) and 'self.out_queue[0]' in norm(n.value)]
+        R.check(bool(heads), rule, 'bumble.l2cap.LeCreditBasedChannel.process_output | SDU source', 'the SDU is cut from the head of the queue, no loop joins packets', 'cannot find how an SDU is built from the output queue', p.loc(po))
+        return
+    loop = min(inner, key=lambda n: sum(1 for _ in ast.walk(n)))   # the innermost one
+
+    class D(paths.Domain):
+        def event(self, node, v):
+            if isinstance(node, ast.Call) and dotted(node.func) in ('self.out_queue.popleft', 'self.out_queue.pop'):
+                return (True,)
+            return (v,)
+    res = paths.run_block(loop.body, D(), False)
+    again = paths.join(res.get('fall', {}), res.get('continue', {}))
+    bad = [' '.join(w) for v, w in again.items() if v]
+    R.check(not bad, rule, 'bumble.l2cap.LeCreditBasedChannel.process_output | one packet per SDU', 'after a queued packet has been consumed entirely the assembling loop is left: the next packet starts a new SDU',
+            'the loop that assembles an SDU goes on after a queued packet has been consumed: the next packet is appended to the same SDU, so two ATT PDUs written on an enhanced bearer while the channel waits for credits arrive as one (the second response / notification is swallowed)', p.loc(loop), bad[:3])
+
+
 RULES = [
+    ('C12.sdu-boundary', sdu_boundary),
     ('C12.encode-once', encode_once),
     ('C12.mtu-agreement', mtu_agreement_rule),
     ('C12.late-binding', late_binding_rule),
